@@ -795,12 +795,17 @@ impl BuiltInFunction {
                     format!("`{power}` is an invalid power for int bases (valid >= 0)")
                 })?;
 
-                let result: Primitive = match this {
-                    Primitive::Int(i32) => Primitive::BigInt(i32.pow(power_non_fp) as i128),
-                    Primitive::BigInt(i128) => Primitive::BigInt(i128.pow(power_non_fp)),
-                    Primitive::Byte(u8) => Primitive::BigInt(u8.pow(power_non_fp) as i128),
+                // the result is a bigint: raise the widened base, and report a result that does not fit
+                let base: i128 = match this {
+                    Primitive::Int(i32) => *i32 as i128,
+                    Primitive::BigInt(i128) => *i128,
+                    Primitive::Byte(u8) => *u8 as i128,
                     bad => unreachable!("{bad}"),
                 };
+
+                let result = Primitive::BigInt(base.checked_pow(power_non_fp).with_context(|| {
+                    format!("`{base}` to the power of `{power_non_fp}` could not fit in a bigint")
+                })?);
 
                 Ok((Some(result), None))
             }
@@ -815,9 +820,7 @@ impl BuiltInFunction {
 
                 let result: Primitive = match this {
                     Primitive::Int(i32) => Primitive::Float(f64::from(*i32).powf(*power)),
-                    Primitive::BigInt(i128) => {
-                        Primitive::Float(f64::from(*i128 as i32).powf(*power))
-                    }
+                    Primitive::BigInt(i128) => Primitive::Float((*i128 as f64).powf(*power)),
                     Primitive::Byte(u8) => Primitive::Float((*u8 as f64).powf(*power)),
                     Primitive::Float(f64) => Primitive::Float(f64.powf(*power)),
                     bad => unreachable!("{bad}"),
@@ -832,7 +835,7 @@ impl BuiltInFunction {
 
                 let result: Primitive = match this {
                     Primitive::Int(i32) => Primitive::Float(f64::from(*i32).sqrt()),
-                    Primitive::BigInt(i128) => Primitive::Float(f64::from(*i128 as i32).sqrt()),
+                    Primitive::BigInt(i128) => Primitive::Float((*i128 as f64).sqrt()),
                     Primitive::Byte(u8) => Primitive::Float((*u8 as f64).sqrt()),
                     Primitive::Float(f64) => Primitive::Float(f64.sqrt()),
                     bad => unreachable!("{bad}"),
@@ -871,7 +874,16 @@ impl BuiltInFunction {
                     Primitive::Int(i32) => Primitive::BigInt(*i32 as i128),
                     Primitive::BigInt(i128) => Primitive::BigInt(*i128),
                     Primitive::Byte(u8) => Primitive::BigInt(*u8 as i128),
-                    Primitive::Float(f64) => Primitive::BigInt((*f64 as i64).into()),
+                    Primitive::Float(f64) => {
+                        let truncated = f64.trunc();
+
+                        // every double in this range is an exact i128 once truncated
+                        if !(-(2f64.powi(127))..2f64.powi(127)).contains(&truncated) {
+                            bail!("`{f64}` cannot be made into a bigint")
+                        }
+
+                        Primitive::BigInt(truncated as i128)
+                    }
                     bad => unreachable!("{bad}"),
                 };
 
@@ -909,10 +921,7 @@ impl BuiltInFunction {
 
                 let result: Primitive = match this {
                     Primitive::Int(i32) => Primitive::Float((*i32).into()),
-                    Primitive::BigInt(i128) => Primitive::Float(f64::from(
-                        i32::try_from(*i128)
-                            .with_context(|| format!("`{i128}` cannot be made into a float"))?,
-                    )),
+                    Primitive::BigInt(i128) => Primitive::Float(*i128 as f64),
                     Primitive::Byte(u8) => Primitive::Float(*u8 as f64),
                     Primitive::Float(f64) => Primitive::Float(*f64),
                     bad => unreachable!("{bad}"),
